@@ -52,7 +52,20 @@ EvalDeck == /\ phase = "in" /\ kind = "deck"
 
 MaxOv(lv) == LET ovs == {CMax(0, CMin(WinHi(lv, b, t), lv[k]) - CMax(WinLo(lv, b, t), lv[k + 1])) : k \in 1..NLay(lv)}
              IN  CHOOSE m \in ovs : \A o \in ovs : m >= o
+\* FlatRule = "edges" (class of seeded change C19-11): every selected layer gets 1, only the two outermost selected
+\* layers are weighted -- the one at the low-pressure end with the lower window bound, the one at the high-pressure end
+\* with the upper bound, the latter assignment winning when they are the same layer (a window inside ONE layer loses its
+\* lower bound).  It stays inside every admissible interval and is refuted by WindowExtentConserved.
+Selected == {k \in 1..NLay(lev) : ~WhollyOutside(lev, k, WinLo(lev, b, t), WinHi(lev, b, t))}
+EdgeValue(k) == IF k \notin Selected THEN Q(0)
+                ELSE LET kb == CHOOSE j \in Selected : \A i \in Selected : j <= i      \* high-pressure end
+                         kt == CHOOSE j \in Selected : \A i \in Selected : j >= i      \* low-pressure end
+                         w  == lev[k] - lev[k + 1]
+                     IN  IF k = kb THEN Norm(CMax(0, CMin(WinHi(lev, b, t), lev[k]) - lev[k + 1]), w)
+                         ELSE IF k = kt THEN Norm(CMax(0, lev[k] - CMax(WinLo(lev, b, t), lev[k + 1])), w)
+                         ELSE Q(1)
 FlatValue(k) == IF FlatRule = "fraction" THEN FlatFrac(lev, k, b, t)
+                ELSE IF FlatRule = "edges" THEN EdgeValue(k)
                 ELSE LET ov == CMax(0, CMin(WinHi(lev, b, t), lev[k]) - CMax(WinLo(lev, b, t), lev[k + 1]))
                      IN  IF MaxOv(lev) = 0 THEN Q(0) ELSE Norm(ov, MaxOv(lev))
 EvalFlat == /\ phase = "in" /\ kind = "flat"
@@ -86,6 +99,13 @@ PartialWithinInterval == Haze => ProfileAdmissible(lev, b, t, f)
 UnsetMeansWholeAtmosphere == (Haze /\ ~b.set /\ ~t.set) => \A k \in 1..NLay(lev) : f[k] = Q(1)
 InvertedBoundsNeverOutsideHull == (Haze /\ Inverted(b, t)) =>
     \A k \in 1..NLay(lev) : (lev[k] < CMin(b.x, t.x) \/ lev[k + 1] > CMax(b.x, t.x)) => f[k] = Q(0)
+\* the documented partial-layer rule of the grey haze: the covered fraction of every layer, hence the extinction
+\* integrated over log pressure is the declared magnitude times the extent of the window inside the atmosphere
+RECURSIVE WSum(_)
+WSum(k) == IF k = 0 THEN Q(0) ELSE RAdd(WSum(k - 1), RMul(f[k], Q(lev[k] - lev[k + 1])))
+WindowExtentConserved == (Haze /\ kind = "flat" /\ ~EmptyReading) =>
+    WSum(NLay(lev)) = Q(CMax(0, CMin(Hi, lev[1]) - CMax(Lo, lev[Len(lev)])))
+FlatIsCoveredFraction == (Haze /\ kind = "flat" /\ ~EmptyReading) => \A k \in 1..NLay(lev) : f[k] = FlatFrac(lev, k, b, t)
 FitsInv == Fits(depth[1]) /\ Fits(depth[2]) /\ Fits(depth[3])
 
 Emit == (Export /\ Done) =>
